@@ -131,7 +131,9 @@ func runCase(c *core.Ctx, i int) {
 		interleaveCase(c, rng)
 		return
 	}
-	if i%27 == 4 {
+	// the where stream runs on real storage nodes (two engines per case): every 27th case of a
+	// quick run (~92), every 81st of a thorough run (~370 per seed)
+	if i%27 == 4 && (c.Tier != "thorough" || i%81 == 4) {
 		whereCase(c, rng)
 		return
 	}
